@@ -207,6 +207,9 @@ def run(ctx):
     for k, fs in enumerate(cases):
         mainp = gen.write_fileset(fs, os.path.join(work, "cases", str(k)))
         lines.append("%d\tcli\t-\t%s\t" % (k, mainp))
+        # the library entry point, input named by a relative path (what a build script passes)
+        rel = os.path.relpath(mainp, os.getcwd())
+        lines.append("%dr\tlibgen\t-\t%s\t%s" % (k, [rel, "./" + rel][k % 2], os.path.dirname(mainp)))
     cf = os.path.join(work, "cases.txt")
     open(cf, "w").write("\n".join(lines) + "\n")
     rc, out, err = vlib.run([ctx["harness"], "front", cf], timeout=900)
@@ -283,6 +286,12 @@ def run(ctx):
     results, errors = vlib.eval_cases(os.path.join(work, "coq"), "cases", "From MinkV Require Import spec.Spec_C06.\n", defs, shard_size=30)
     for e in errors:
         res["corr_broken"].append({"kind": "case-evaluation", "detail": e})
+    for k, fs in enumerate(cases):
+        h, hr = hres.get(str(k)), hres.get("%dr" % k)
+        if h and hr and h.get("result", "ok") != "ok" and hr.get("result", "").startswith("ok") and int(h["result"].split()[2]) <= 5:
+            res["failures"].append({"property": prop, "fileset": fs, "text": {f["path"]: gen.render_file(f) for f in fs["files"]},
+                                    "command_line": h["result"], "library_entry_relative_path": hr["result"],
+                                    "what": "a file set whose structs the command line refuses (%s) is accepted by idlc::Language::generate when the input is named by a relative path" % h["result"][:120]})
     distinct, seen, nprobe, nraw, nacc, nrust_done = 0, set(), 0, 0, 0, 0
     compile_notes = []
     for k, d, _ in defs:
